@@ -124,6 +124,8 @@ class Driver(object):
         if not os.path.exists(self.bin):
             raise HarnessError('model driver not built: %s' % self.bin)
         self.calls = 0
+        self.prop = prop
+        self.sample = []           # (request line, answer line) pairs kept for the interpreter cross-check
 
     def batch(self, requests):
         """Run many requests through one driver process; returns list of results
@@ -144,6 +146,12 @@ class Driver(object):
         if len(lines) != len(requests):
             raise HarnessError('driver answered %d lines for %d requests' % (len(lines), len(requests)))
         out = []
+        if len(self.sample) < 240:
+            reqlines = data.split('\n')
+            step = max(1, len(requests) // 24)
+            for i in range(0, len(requests), step):
+                if len(reqlines[i]) < 20000 and len(self.sample) < 240:
+                    self.sample.append((reqlines[i], lines[i]))
         for req, line in zip(requests, lines):
             j = json.loads(line)
             if 'driver_error' in j:
@@ -155,6 +163,35 @@ class Driver(object):
     def call(self, op, **args):
         args['op'] = op
         return self.batch([args])[0]
+
+    def interpreter_crosscheck(self):
+        """Trusted-base check (thorough tier): the compiled driver trusts the Lean compiler for
+        executing the model, so a sample of this run's request lines is also evaluated by the Lean
+        interpreter (`lake env lean --run Driver/Cxx.lean`) and the answers are compared.  A difference
+        is a fault of the tool chain, not of /repo: it is a harness error, never a violation."""
+        if not self.sample:
+            return {'lines': 0}
+        data = ''.join(r + '\n' for r, _ in self.sample)
+        t0 = time.time()
+        try:
+            p = subprocess.run(['lake', 'env', 'lean', '--run', 'Driver/%s.lean' % self.prop], cwd=LEAN_DIR,
+                               input=data.encode('ascii'), stdout=subprocess.PIPE, stderr=subprocess.PIPE,
+                               timeout=600)
+        except subprocess.TimeoutExpired:
+            return {'lines': len(self.sample), 'result': 'interpreter timed out after 600 s (not judged)'}
+        if p.returncode != 0:
+            raise HarnessError('interpreter run of Driver/%s.lean exited %d: %s'
+                               % (self.prop, p.returncode, p.stderr.decode('utf-8', 'replace')[:1000]))
+        lines = p.stdout.decode('utf-8').split('\n')
+        if lines and lines[-1] == '':
+            lines.pop()
+        if len(lines) != len(self.sample):
+            raise HarnessError('interpreter answered %d lines for %d requests' % (len(lines), len(self.sample)))
+        for (req, want), got in zip(self.sample, lines):
+            if json.loads(want) != json.loads(got):
+                raise HarnessError('compiled driver and Lean interpreter disagree on %s: %s vs %s'
+                                   % (req[:500], want[:300], got[:300]))
+        return {'lines': len(self.sample), 'result': 'identical', 'wall_s': round(time.time() - t0, 1)}
 
 
 class KnownList(list):
@@ -382,6 +419,8 @@ class Ctx(object):
                 print('  no longer checks: ' + b[:600])
             nviol = 1
             code = 1
+        if self.tier == 'thorough' and self._driver is not None and not self.replay:
+            self.coverage['interpreter_crosscheck'] = self._driver.interpreter_crosscheck()
         self.write_evidence(nviol)
         return code
 
